@@ -8,6 +8,7 @@ import DryocVerif.Spec.Salsa20
 import DryocVerif.Spec.ChaCha20
 import DryocVerif.Model.Poly1305
 import DryocVerif.Model.Utils
+import DryocVerif.Model.Blake2b
 open DryocVerif
 namespace Driver.Hash
 
@@ -16,6 +17,16 @@ def ghSpec (outlen : Nat) (key msg : Bytes) : String :=
   if outlen < 16 ∨ 64 < outlen then "err"
   else if !key.isEmpty ∧ (key.length < 16 ∨ 64 < key.length) then "err"
   else okHex (Spec.Blake2b.hash outlen key msg)
+
+/-- `-` (empty) in the line protocol = `None` -/
+def ghKey (k : Bytes) : Option Bytes := if k.isEmpty then none else some k
+
+/-- model side of the incremental generichash: init, update each chunk, final -/
+def ghModelInc (outlen : Nat) (key : Bytes) (cs : List Bytes) : String :=
+  match Model.Blake2b.generichashInit (ghKey key) outlen none none with
+  | .ok st => outBytes (Model.Blake2b.generichashFinal (cs.foldl Model.Blake2b.generichashUpdate st) outlen)
+  | .err => "err"
+  | .panic => "panic"
 
 def handle (op : String) (args : List String) : Option Ans :=
   match op, hexArgs args with
@@ -44,15 +55,15 @@ def handle (op : String) (args : List String) : Option Ans :=
     match op, args with
     | "generichash", n :: rest =>
       match n.toNat?, hexArgs rest with
-      | some n, some [k, m] => some ("n/a", ghSpec n k m)
+      | some n, some [k, m] => some (outBytes (Model.Blake2b.generichash n m (ghKey k)), ghSpec n k m)
       | _, _ => none
     | "generichash_inc", n :: rest =>
       match n.toNat?, hexArgs rest with
-      | some n, some (k :: cs) => some ("n/a", ghSpec n k cs.flatten)
+      | some n, some (k :: cs) => some (ghModelInc n k cs, ghSpec n k cs.flatten)
       | _, _ => none
     | "generichash_obj", n :: rest =>
       match n.toNat?, hexArgs rest with
-      | some n, some (k :: cs) => some ("n/a", ghSpec n k cs.flatten)
+      | some n, some (k :: cs) => some (ghModelInc n k cs, ghSpec n k cs.flatten)
       | _, _ => none
     | _, _ => none
 
